@@ -43,13 +43,15 @@ router's input balance in the same state; all of the input is consumed; only the
 the recipient -/
 theorem single_hop_passthrough {name : Asset → String} {w w' : World} {sender : Nat} {o a : Asset}
     {mn to : Option Nat} {R : Record} {P : PairSt}
-    (hR : facLookup w o a = some R) (hP : w.pair R.pair = some P) (hne : P.a0 ≠ P.a1) (hoa : o ≠ a)
+    (hR : facLookup w o a = some R) (hP : w.pair R.pair = some P)
+    (hPa : (P.a0 = o ∧ P.a1 = a) ∨ (P.a0 = a ∧ P.a1 = o))   -- from the registry invariant: Halo.Props.C16W.lookup_sound
+    (hne : P.a0 ≠ P.a1) (hoa : o ≠ a)
     (hpr : R.pair ≠ w.router) (hrcv1 : to.getD sender ≠ w.router) (hrcv2 : to.getD sender ≠ R.pair)
     (h : routerSwapOps name w sender [(o, a)] mn to = .ok w') :
     ∃ n, routerSimulateTop w (bal w o w.router) [(o, a)] = .ok n ∧
       bal w' a (to.getD sender) = bal w a (to.getD sender) + n ∧
       bal w' o w.router = 0 ∧ bal w' a w.router = bal w a w.router ∧
       (∀ b, b ≠ a → bal w' b (to.getD sender) = bal w b (to.getD sender)) :=
-  Halo.C13.single_hop_passthrough hR hP hne hoa hpr hrcv1 hrcv2 h
+  Halo.C13.single_hop_passthrough' hR hP hPa hne hoa hpr hrcv1 hrcv2 h
 
 end Halo.Props.C13
